@@ -7,6 +7,7 @@ pub mod gen;
 pub mod iso;
 pub mod kinds;
 pub mod labels;
+pub mod lax_ops;
 pub mod model;
 pub mod props;
 pub mod tape;
